@@ -402,6 +402,8 @@ func runC04(r *Run) {
 	// the setter restores Length and the header on every path, refusals included: a signed message that was
 	// handed to AddTo once more (and refused) still verifies (shared with C03)
 	r.Borrow("C03", map[string]string{"C03.restore": "C04.addrestore"})
+	// a message without MESSAGE-INTEGRITY is answered with the lookup's error, not verified with a nil value (shared with C07)
+	r.Borrow("C07", map[string]string{"C07.lookup": "C04.lookup"})
 }
 
 func nameOf(f *ssa.Function) string {
@@ -1113,7 +1115,7 @@ func runC05(r *Run) {
 	r.Borrow("C03", map[string]string{"C03.restore": "C05.addrestore"})
 	// the checkers rewrite nothing but the length bytes they restore: a bit flipped in transit stays flipped in Raw
 	// for the fingerprint check that follows (shared with C07)
-	r.Borrow("C07", map[string]string{"C07.readonly": "C05.readonly"})
+	r.Borrow("C07", map[string]string{"C07.readonly": "C05.readonly", "C07.lookup": "C05.lookup"})
 	// Decode's type translation maps nothing but the one legacy alias: no other code point becomes FINGERPRINT
 	// (a flipped bit in the uncovered type field would otherwise still verify) (shared with C02)
 	r.Borrow("C02", map[string]string{"C02.compat": "C05.compat"})
